@@ -218,6 +218,7 @@ func init() {
 				}
 				add(c)
 			}
+			denseAllocatorCases(add) // value identity does not depend on which id allocator names the texts
 			// JSON ingest
 			nj := 60
 			if tier == "thorough" {
